@@ -79,7 +79,10 @@ def e13(ctx: Ctx):
             branches = [st.body, st.orelse]
             break
     if len(branches) != 2 or not all(branches):
-        raise IdiomNotFound("two-branch (string / numeric) shape not recognised")
+        # other shapes (`temps = A if is_str else B`, aliases ...): specialise the body on the flag and compare
+        # the set that is counted with the set the new name is registered in
+        _e13_specialised(ctx, ci, fn)
+        return
     for i, body in enumerate(branches):
         assign = next((s for s in body if isinstance(s, ast.Assign) and isinstance(s.value, ast.JoinedStr)), None)
         add = next((s for s in body if isinstance(s, ast.Expr) and isinstance(s.value, ast.Call) and call_name(s.value) == "add"), None)
@@ -124,6 +127,93 @@ def e13(ctx: Ctx):
     sets = [t.attr for s in ast.walk(init) if isinstance(s, ast.Assign) and isinstance(s.value, ast.Call) and call_name(s.value) == "set" for t in s.targets if is_self_attr(t)]
     ok = len(sets) >= 2
     ctx.ob("temps:per-statement", ok, "" if ok else "temporary name sets are not created per statement instance", file=ELEMENTS_REL, line=init.lineno)
+
+
+
+def _e13_specialised(ctx: Ctx, ci, fn) -> None:
+    """E13 for a get_new_temp without the two-branch shape: partially evaluate the straight-line body once with the
+    kind flag true and once with it false (an `if flag` / `X if flag else Y` is resolved, local names are replaced by
+    what they were bound to), then read off which set is counted in the name and which set the name is added to."""
+    import copy
+
+    if len(fn.args.args) < 2:
+        raise IdiomNotFound("get_new_temp: kind parameter not found")
+    flag = fn.args.args[1].arg
+
+    class Sub(ast.NodeTransformer):
+        def __init__(self, env, val):
+            self.env, self.val = env, val
+
+        def visit_Name(self, n):
+            if isinstance(n.ctx, ast.Load) and n.id in self.env:
+                return copy.deepcopy(self.env[n.id])
+            return n
+
+        def visit_IfExp(self, n):
+            t = _flag_test(n.test, flag)
+            if t is None:
+                return self.generic_visit(n)
+            return self.visit(n.body if t == self.val else n.orelse)
+
+    def run(val: bool):
+        env: Dict[str, ast.AST] = {}
+        adds: List[Tuple[ast.AST, ast.AST, int]] = []
+
+        def block(stmts) -> None:
+            for st in stmts:
+                if isinstance(st, ast.If):
+                    t = _flag_test(st.test, flag)
+                    if t is None:
+                        raise IdiomNotFound("get_new_temp: a condition that is not the kind flag")
+                    block(st.body if t == val else st.orelse)
+                elif isinstance(st, ast.Assign) and len(st.targets) == 1 and isinstance(st.targets[0], ast.Name):
+                    env[st.targets[0].id] = Sub(env, val).visit(copy.deepcopy(st.value))
+                elif isinstance(st, ast.Expr) and isinstance(st.value, ast.Call) and call_name(st.value) == "add" and isinstance(st.value.func, ast.Attribute) and len(st.value.args) == 1:
+                    adds.append((Sub(env, val).visit(copy.deepcopy(st.value.func.value)), Sub(env, val).visit(copy.deepcopy(st.value.args[0])), st.lineno))
+                elif isinstance(st, ast.Return) or (isinstance(st, ast.Expr) and isinstance(st.value, ast.Constant)):
+                    continue
+                else:
+                    raise IdiomNotFound("get_new_temp: statement kind not modelled: " + type(st).__name__)
+
+        block(fn.body)
+        return adds
+
+    for val, kind in ((True, "string"), (False, "numeric")):
+        adds = run(val)
+        if len(adds) != 1:
+            raise IdiomNotFound(f"get_new_temp ({kind}): expected exactly one registration, found {len(adds)}")
+        recv, name, ln = adds[0]
+        if not isinstance(name, ast.JoinedStr):
+            raise IdiomNotFound(f"get_new_temp ({kind}): the registered value is not a formatted name")
+        lens = [c for c in ast.walk(name) if isinstance(c, ast.Call) and call_name(c) == "len" and len(c.args) == 1]
+        if len(lens) != 1:
+            raise IdiomNotFound(f"get_new_temp ({kind}): counter expression not recognised")
+        counted, added_to = unparse(lens[0].args[0]), unparse(recv)
+        plus1 = any(isinstance(b, ast.BinOp) and isinstance(b.op, ast.Add) and isinstance(b.right, ast.Constant) and isinstance(b.right.value, int) and b.right.value >= 1 for b in ast.walk(name))
+        ok = counted == added_to and plus1
+        ctx.ob(
+            f"get_new_temp:{kind}",
+            ok,
+            "" if ok else f"the {kind} temporary is numbered from `len({counted})` but registered in `{added_to}`: two temporaries of one statement get the same name and the second call overwrites the first result",
+            file=ELEMENTS_REL,
+            line=ln,
+            witness="" if ok else "10 HSET(JOYSTK(0),JOYSTK(1),POINT(3,4))",
+        )
+    init = ci.methods.get("__init__")
+    if init is None:
+        raise IdiomNotFound("__init__ not found")
+    sets = [t.attr for s in ast.walk(init) if isinstance(s, ast.Assign) and isinstance(s.value, ast.Call) and call_name(s.value) == "set" for t in s.targets if is_self_attr(t)]
+    ok = len(sets) >= 2
+    ctx.ob("temps:per-statement", ok, "" if ok else "temporary name sets are not created per statement instance", file=ELEMENTS_REL, line=init.lineno)
+
+
+def _flag_test(test: ast.AST, flag: str) -> Optional[bool]:
+    """True for `flag`, False for `not flag`, None for anything else."""
+    if isinstance(test, ast.Name) and test.id == flag:
+        return True
+    if isinstance(test, ast.UnaryOp) and isinstance(test.op, ast.Not) and isinstance(test.operand, ast.Name) and test.operand.id == flag:
+        return False
+    return None
 
 
 def _isinstance_facts(test: ast.AST, self_names: Dict[str, str]) -> Set[Tuple[str, str]]:
